@@ -1,9 +1,11 @@
 package main
 
 import (
+	"fmt"
 	"go/ast"
 	"go/token"
 	"go/types"
+	"sort"
 	"strings"
 
 	"golang.org/x/tools/go/packages"
@@ -86,6 +88,7 @@ func derivesFromCall(info *types.Info, e ast.Expr, defs map[types.Object]localDe
 
 func ruleRingMod(c *Ctx) {
 	nViews, nCursor, nSweep := 0, 0, 0
+	cursorSeen := map[string]int{}
 	c.P.funcDecls(func(pk *packages.Package, fd *ast.FuncDecl) {
 		info := pk.TypesInfo
 		if fd.Body == nil {
@@ -155,37 +158,56 @@ func ruleRingMod(c *Ctx) {
 				if !ok || sel.Sel.Name != "SetNextWithdrawalValidatorIndex" {
 					return true
 				}
-				nCursor++
-				key := fname + "@SetNextWithdrawalValidatorIndex"
-				arg := call.Args[0]
-				// copying the cursor of another state (fork upgrade) or zero-initialising it is not an advance
-				if derivesFromCall(info, arg, defs, "NextWithdrawalValidatorIndex") && !containsArith(resolveLocal(info, arg, defs, 4)) {
-					c.ok(key, call.Pos(), "cursor copied from NextWithdrawalValidatorIndex()")
-					return true
+				base := fname + "@SetNextWithdrawalValidatorIndex"
+				// the values the argument can hold: itself, or (a variable) every assignment that may still hold here
+				type cand struct {
+					e   ast.Expr
+					pos token.Pos
 				}
-				if tv, ok := info.Types[arg]; ok && tv.Value != nil {
-					c.ok(key, call.Pos(), "constant cursor")
-					return true
-				}
-				var x, m ast.Expr
-				okMod := false
-				if id, isId := ast.Unparen(arg).(*ast.Ident); isId {
-					// the variable may be (re)assigned just before the call: take the latest definition
-					if rhs, _ := lastDefBefore(info, fd, info.ObjectOf(id), call.Pos()); rhs != nil {
-						x, m, okMod = isModOf(info, rhs, defs)
+				cands := []cand{{call.Args[0], call.Pos()}}
+				if id, isId := ast.Unparen(call.Args[0]).(*ast.Ident); isId {
+					ri := reachingDefs(info, fd.Body)
+					if ds := ri.mayReach(info.ObjectOf(id), call); len(ds) > 0 {
+						cands = nil
+						for _, d := range ds {
+							if d.def.rhs == nil {
+								continue // var x T / x++: nothing stored by this one
+							}
+							if d.def.n > 1 {
+								cands = append(cands, cand{d.def.rhs, d.stmt.Pos()}) // x, err := f(): judged as the call
+							} else {
+								cands = append(cands, cand{d.def.rhs, d.stmt.Pos()})
+							}
+						}
 					}
 				}
-				if !okMod {
-					x, m, okMod = isModOf(info, arg, defs)
-				}
-				_ = x
-				switch {
-				case !okMod:
-					c.bad(key, call.Pos(), "%s stores `%s` as the next withdrawal validator index without reducing it modulo the validator count: after the last validator the sweep cursor points past the registry", fname, types.ExprString(arg))
-				case !derivesFromCall(info, m, defs, "ValidatorCount"):
-					c.bad(key, call.Pos(), "%s reduces the withdrawal cursor modulo `%s`, which is not the registry's ValidatorCount()", fname, types.ExprString(m))
-				default:
-					c.ok(key, call.Pos(), "cursor reduced modulo ValidatorCount()")
+				sort.Slice(cands, func(i, j int) bool { return cands[i].pos < cands[j].pos })
+				for _, cd := range cands {
+					nCursor++
+					key := base
+					if cursorSeen[base] > 0 {
+						key = fmt.Sprintf("%s#%d", base, cursorSeen[base]+1)
+					}
+					cursorSeen[base]++
+					arg := cd.e
+					// copying the cursor of another state (fork upgrade) or zero-initialising it is not an advance
+					if derivesFromCall(info, arg, defs, "NextWithdrawalValidatorIndex") && !containsArith(resolveLocal(info, arg, defs, 4)) {
+						c.ok(key, cd.pos, "cursor copied from NextWithdrawalValidatorIndex()")
+						continue
+					}
+					if tv, ok := info.Types[arg]; ok && tv.Value != nil {
+						c.ok(key, cd.pos, "constant cursor")
+						continue
+					}
+					_, m, okMod := isModOf(info, arg, defs)
+					switch {
+					case !okMod:
+						c.bad(key, cd.pos, "%s stores `%s` as the next withdrawal validator index without reducing it modulo the validator count: after the last validator the sweep cursor points past the registry", fname, types.ExprString(arg))
+					case !derivesFromCall(info, m, defs, "ValidatorCount"):
+						c.bad(key, cd.pos, "%s reduces the withdrawal cursor modulo `%s`, which is not the registry's ValidatorCount()", fname, types.ExprString(m))
+					default:
+						c.ok(key, cd.pos, "cursor reduced modulo ValidatorCount()")
+					}
 				}
 				return true
 			})
@@ -243,7 +265,7 @@ func ruleRingMod(c *Ctx) {
 		anchorFail("ring.mod: expected >=6 ring-view Get/Set sites (slashings, roots, mixes), found %d", nViews)
 	}
 	if nCursor < 2 {
-		anchorFail("ring.mod: expected >=2 SetNextWithdrawalValidatorIndex call sites in transition code, found %d", nCursor)
+		anchorFail("ring.mod: expected >=2 values stored through SetNextWithdrawalValidatorIndex in transition code, found %d", nCursor)
 	}
 }
 
@@ -310,11 +332,20 @@ func ruleChurnFlow(c *Ctx) {
 			if !ok || len(as.Lhs) != 1 || len(as.Rhs) != 1 {
 				return true
 			}
-			call, ok := ast.Unparen(as.Rhs[0]).(*ast.CallExpr)
-			if !ok {
-				return true
+			// the capped limit: the helper's result, or the spec's min(MAX_PER_EPOCH_ACTIVATION_CHURN_LIMIT, …) written out
+			isCap := false
+			if call, ok := ast.Unparen(as.Rhs[0]).(*ast.CallExpr); ok {
+				if f := calleeFunc(info, call); f != nil && strings.EqualFold(f.Name(), "getValidatorActivationChurnLimit") {
+					isCap = true
+				}
 			}
-			if f := calleeFunc(info, call); f != nil && strings.EqualFold(f.Name(), "getValidatorActivationChurnLimit") {
+			ast.Inspect(as.Rhs[0], func(k ast.Node) bool {
+				if sel, ok := k.(*ast.SelectorExpr); ok && sel.Sel.Name == "MAX_PER_EPOCH_ACTIVATION_CHURN_LIMIT" {
+					isCap = true
+				}
+				return !isCap
+			})
+			if isCap && !strings.EqualFold(funcName(fd), "getValidatorActivationChurnLimit") {
 				if id, ok := as.Lhs[0].(*ast.Ident); ok {
 					capped[info.ObjectOf(id)] = as.Pos()
 				}
